@@ -194,7 +194,7 @@ def crash_lines(intent, what):
     evs = list(intent.get('events') or [])
     step = dict(intent['step'])
     a = step.pop('a')
-    evs.append({'t': intent['t'], 'a': a, 'args': step, 'st': evs[-1]['st'], 'obs': {'crash': what, 'stuck': ''}})
+    evs.append({'t': intent['t'], 'a': a, 'args': step, 'st': evs[-1]['st'], 'obs': {'crash': what, 'stuck': '', 'queued': False}})
     return evs
 
 
@@ -389,9 +389,13 @@ def run(rep, tier, seed, replay):
     quick = tier == 'quick'
     ncpu = min(core.NCPU, 12)
     # 1. design check of the specification of today's code
-    res = core.tlc_check('MC_Propagation.tla', 'MC_Propagation.cfg' if quick else 'MC_Propagation_thorough.cfg',
-                         timeout=3000, workers=ncpu)
+    #    quick: one controller change, one lagging server, one cancellation; thorough: in addition two controller
+    #    changes (no lagging server) - the bounds are fitted to measured state counts (design_notes/X04.md)
+    res = core.tlc_check('MC_Propagation.tla', 'MC_Propagation.cfg', timeout=3000, workers=ncpu)
     rep.add_design('MC_Propagation', res)
+    if not quick:
+        res2 = core.tlc_check('MC_Propagation.tla', 'MC_Propagation_thorough.cfg', timeout=3000, workers=ncpu)
+        rep.add_design('MC_Propagation_thorough', res2)
     # 2. defective variants of single model decisions and the known window: TLC's counterexamples are directed stimuli
     directed = []
     for cfg, what in (('MC_Propagation_nobarrier.cfg', 'preconditions checked without the Raft barrier'),
@@ -405,9 +409,9 @@ def run(rep, tier, seed, replay):
     rep.cov['behaviours_directed_families'] = len(fam)
     directed += fam
     # 3. a simulated pool, reduced to the behaviours that cover the situation features
-    pool = core.tlc_simulate('MC_Propagation.tla', 'Sim_Propagation.cfg', 3000 if quick else 20000, 16 if quick else 20,
+    pool = core.tlc_simulate('MC_Propagation.tla', 'Sim_Propagation.cfg', 3000 if quick else 10000, 16 if quick else 20,
                              seed, timeout=900)
-    chosen, fcov, ftot = select(pool, 110 if quick else 1500, rng, per_feature=1 if quick else 3)
+    chosen, fcov, ftot = select(pool, 110 if quick else 450, rng, per_feature=1 if quick else 3)
     rep.cov['situation_features_in_pool'] = ftot
     rep.cov['situation_features_replayed'] = fcov
     behaviours = []
